@@ -42,6 +42,9 @@ type embOuter struct {
 // a map whose key type is a named string type
 type namedKey string
 
+// a named slice type with elements of any type
+type namedList []any
+
 // a struct with a pointer (so that it is printed by values.Sprint's own walk) and unexported containers
 type hiddenMapStruct struct {
 	Name *string
